@@ -96,6 +96,7 @@ func (s *streamer) getStream(streamID StreamID, streamName StreamName) *stream {
 func (s *streamer) makeCharged(stream *stream) {
 	s.chargedMu.Lock()
 	s.charged = append(s.charged, stream)
+	verifTrace("st.charge", uint64(stream.streamID), verifStreamKey(stream))
 	s.chargedCond.Signal()
 	s.chargedMu.Unlock()
 }
@@ -113,6 +114,7 @@ func (s *streamer) joinStream() *stream {
 	l := len(s.charged)
 	stream := s.charged[l-1]
 	s.charged = s.charged[:l-1]
+	verifTrace("st.pop", uint64(stream.streamID), verifStreamKey(stream))
 	s.chargedMu.Unlock()
 	stream.attach()
 
